@@ -34,11 +34,86 @@ def bounded_c01(tier, seed):
              scope="H-prog (see C03): returned value (structurally, NaN equal to NaN), exception type, stdout and final state of the "
                    "arguments of the uninstrumented call against the call of the module instrumented through the real import hook "
                    "(dynamic seeding always on) under the metric sets {BRANCH}, {LINE}, {BRANCH, LINE}",
-             bound="the listed functions and vectors; CHECKED coverage is not run (see level_note)")
+             bound="the listed functions and vectors")
     return guarded(p, lambda part, t, s: run_hprog(part, t, s, judge_behaviour, ("B", "L", "BL")), tier, seed)
 
 
-BOUNDED = [bounded_c01]
+_CHILD = r'''
+import json, sys, tempfile
+sys.path.insert(0, sys.argv[2])
+from contracts import hprog as H
+import pynguin.configuration as config
+fn = sys.argv[1]
+d = tempfile.mkdtemp(prefix="hprog_c_")
+try:
+    plain, _p = H.load_plain("hp_plain_c", d)
+    inst, sp, _i = H.load_instrumented("hp_inst_c", d, {config.CoverageMetric[m] for m in sys.argv[3].split(",")})
+    vp, vi = H.argument_vectors(plain), H.argument_vectors(inst)
+    out = []
+    for k, (fp, fi) in enumerate(zip(vp[fn], vi[fn])):
+        a = H.call(getattr(plain, fn), fp())
+        b, _tr = H.traced(inst, sp, fn, fi)
+        out.append((k, a == b, repr(a)[:300], repr(b)[:300]))
+    print("HPROG-RESULT " + json.dumps(out))
+finally:
+    import shutil
+    shutil.rmtree(d, ignore_errors=True)
+'''
+
+
+def _run_child(job):
+    import os, subprocess, sys  # noqa: E401
+    fn, metrics = job
+    root = os.path.dirname(os.path.dirname(os.path.abspath(__file__)))
+    env = dict(os.environ)
+    try:
+        r = subprocess.run([sys.executable, "-c", _CHILD, fn, root, metrics], capture_output=True, text=True, timeout=600, env=env)   # noqa: S603
+    except subprocess.TimeoutExpired:
+        return fn, metrics, None, "timeout", ""
+    line = next((ln for ln in r.stdout.splitlines() if ln.startswith("HPROG-RESULT ")), None)
+    return fn, metrics, r.returncode, line, r.stderr[-600:]
+
+
+def _check_checked(part: Part, tier, seed):
+    """CHECKED coverage rewrites far more instructions (every load, store, attribute and subscript access, call, jump, return);
+    an invalid rewrite can crash the interpreter itself, so every function runs in a process of its own."""
+    import ast, json  # noqa: E401
+    import multiprocessing as mp
+    from . import hprog as H
+    names = [n.name for n in ast.parse(H.SOURCE).body if isinstance(n, ast.FunctionDef)]
+    # (BRANCH is left out of these sets: its known findings - operators evaluated again, one-shot iterators - are judged in
+    #  the other part and would only repeat here)
+    jobs = [(fn, m) for fn in names for m in ("CHECKED", "CHECKED,LINE")]
+    with mp.get_context("fork").Pool(8) as pool:
+        results = pool.map(_run_child, jobs)
+    tgt = "pynguin.instrumentation.version.python3_12:CheckedCoverageInstrumentation"
+    for fn, metrics, rc, line, err in results:
+        if line is None or line == "timeout":
+            part.case()
+            kind = "interpreter-crash" if (rc is not None and rc < 0) else "instrumented-module-fails"
+            part.violation("the instrumented function returns / raises / prints / mutates exactly like the original",
+                           f"{kind}:{fn}", {"function": fn, "metrics": metrics, "exit_status_of_the_process": rc,
+                                            "stderr_tail": err[-400:], "note": "negative exit status = killed by that signal (11: segmentation fault)"},
+                           target=tgt)
+            continue
+        for k, same, a, b in json.loads(line[len("HPROG-RESULT "):]):
+            part.case()
+            if not same:
+                part.violation("the instrumented function returns / raises / prints / mutates exactly like the original",
+                               f"behaviour-under-checked:{fn}", {"function": fn, "vector": k, "metrics": metrics, "uninstrumented": a,
+                                                                 "instrumented": b}, target=tgt)
+
+
+def bounded_checked(tier, seed):
+    p = Part("C01", "behaviour-under-checked-coverage", ["pynguin.instrumentation.version.python3_12:CheckedCoverageInstrumentation",
+                                                         "pynguin.instrumentation.version.python3_10:CheckedCoverageInstrumentation.visit_jump"],
+             scope="H-prog under the metric sets {CHECKED} and {CHECKED, LINE}: every function in a process of its own (a wrong "
+                   "rewrite can crash the interpreter), all argument vectors, same comparison with the uninstrumented call",
+             bound="the listed functions and vectors")
+    return guarded(p, _check_checked, tier, seed)
+
+
+BOUNDED = [bounded_c01, bounded_checked]
 META = {"level": "other", "explanation": "bounded differential contract check: the uninstrumented run is the oracle",
         "rule": "one case per (function, argument vector, metric set)"}
 
